@@ -53,7 +53,7 @@ def algebra_model():
           "Definition show (d : dom) : N * N := match d with Explicit i => (0, i) | Inferred i => (1, i) | Implicit => (2, 0) | DNone => (3, 0) end.\n" \
           "Definition run (p : dom * dom) := let (a, b) := p in (compatible a b, show (merge a b), compatible b a, show (merge b a)).\n"
     terms = ["(%s, %s)" % (ALG_COQ[a], ALG_COQ[b]) for a in ALG for b in ALG]
-    vals = C.coq_eval_sharded("c16_alg", pre, terms, lambda l: "map run %s" % l, shard=100)
+    vals = C.coq_eval_sharded("c16_alg_%d" % os.getpid(), pre, terms, lambda l: "map run %s" % l, shard=100)
     out = []
     for v in vals:
         def sd(p):
@@ -66,7 +66,8 @@ def algebra_impl(binary):
     return C.run_lines(binary, ["D %s %s" % (a, b) for a in ALG for b in ALG], nshards=1)
 
 
-def model_eval(designs, name="c16"):
+def model_eval(designs, name=None):
+    name = name or "c16_%d" % os.getpid()    # unique: runs for several trees may overlap
     pre = "From Coq Require Import NArith List.\nImport ListNotations.\nFrom VV Require Import Analysis.ClockDomainModel Analysis.CdcDesign.\nOpen Scope N_scope.\n" \
           "Definition run (d : env * list item) := verdicts (fst d) (snd d).\n"
     terms = [d.coq() for d in designs]
@@ -135,7 +136,7 @@ def shrink(binary, d, key):
         try:
             c.veryl()
             im = G.analyze(binary, [c.text])[0]
-            ver = model_eval([c], name="c16_shrink")[0]
+            ver = model_eval([c], name="c16_shrink_%d" % os.getpid())[0]
         except Exception:
             return False
         return any(k == key for k, _ in judge(c, im, ver))
@@ -339,7 +340,7 @@ def run(tier, seed, replay):
             pass
         im2 = G.analyze(binary, [d2.text])[0]
         try:
-            ver2 = model_eval([d2], name="c16_shrink")[0]
+            ver2 = model_eval([d2], name="c16_shrink_%d" % os.getpid())[0]
         except Exception:
             ver2 = ver
         ws = [x for kk, x in judge(d2, im2, ver2) if kk == k]
